@@ -25,6 +25,16 @@ Requests (one per line):
 * `succ_unchecked q` `succ_strict_unchecked q` `pred_unchecked q` `pred_strict_unchecked q`
                                 → `ok <x> <index holds x>|<raw index>`   (issued only when the answer exists)
 * `parts`                       → `ok n u l <low len>:<low width>:[low words] <high len>:[high words]`
+* `iter_proto k j`              `EliasFanoIterator::new_from(ef, k)` (`::new(ef)` for `k = 0`, any backend), then
+                                `nth(j)`, `len()`, `count()`; `last()` of a second such iterator
+                                → `ok <nth|none> <len> <count> <last|none>` | `panic` | `na`
+* `estimate_size u n`           `EliasFano::estimate_size(u, n)` (associated function, needs no structure)
+                                → `ok v` | `panic` (checked arithmetic).  The code computes
+                                `ceil(log2(u as f64 / n as f64))`; `estimateSize` below is the exact integer
+                                version, equal to it whenever neither the rounding of the quotient nor of the
+                                logarithm matters — the harness only sends such pairs (exact powers of two,
+                                quotients 25–75 % above one, `u ≤ n`, `n = 0`).
+`custom4` = `seqdict` whose lower bits went through `map_low_bits` into a `Vec`-backed vector.
 
 Whatever a backend does not offer replies `na`: `plain` offers `len iter into_iter parts`;
 `seq` adds `get iter_from into_iter_from`; `dict` offers `len iter into_iter parts index_of contains`
@@ -39,7 +49,7 @@ namespace Sux.EF
 open Sux.Proto
 
 inductive Backend where
-  | plain | seq | dict | seqdict | custom1 | custom2 | custom3
+  | plain | seq | dict | seqdict | custom1 | custom2 | custom3 | custom4
 deriving Repr, DecidableEq
 
 def Backend.parse : String → Option Backend
@@ -50,6 +60,7 @@ def Backend.parse : String → Option Backend
   | "custom1" => some .custom1
   | "custom2" => some .custom2
   | "custom3" => some .custom3
+  | "custom4" => some .custom4
   | _ => none
 
 /-- `IndexedSeq` (+ `iter_from`) available -/
@@ -115,6 +126,34 @@ def fmtIndexOf (s : St) (q : Nat) (o : Out (Option Nat)) : String :=
   | .panic => "panic"
   | .oob => "oob"
 
+def fmtOptNat : Option Nat → String
+  | none => "none"
+  | some v => toString v
+
+/-- `nth(j)`, then `len()`, `count()` of what is left; `last()` of the whole -/
+def fmtProto (j : Nat) (o : Out (List Nat × List Nat)) : String :=
+  match o with
+  | .ok (vs, _) =>
+    let left := vs.length - min vs.length (j + 1)
+    s!"ok {fmtOptNat vs[j]?} {left} {left} {fmtOptNat vs.getLast?}"
+  | .panic => "panic"
+  | .oob => "oob"
+
+/-- least `k` with `u ≤ n * 2^k` (`n > 0`; fuel 64 suffices for 64-bit `u`) -/
+def ceilLog2Quot (u n : Nat) : Nat → Nat → Nat
+  | 0, k => k
+  | fuel + 1, k => if u ≤ n * 2 ^ k then k else ceilLog2Quot u n fuel (k + 1)
+
+/-- `2 * n + n * ceil(log2(u / n))` with checked `usize` arithmetic; `n = 0` gives `0 * _ = 0` -/
+def estimateSize (u n : Nat) : Out Nat :=
+  if n = 0 then .ok 0
+  else
+    let k := ceilLog2Quot u n 64 0
+    if 2 * n ≥ 2 ^ 64 then .panic
+    else if n * k ≥ 2 ^ 64 then .panic
+    else if 2 * n + n * k ≥ 2 ^ 64 then .panic
+    else .ok (2 * n + n * k)
+
 def fmtIter (o : Out (List Nat × List Nat)) : String :=
   match o with
   | .ok (vs, ls) => s!"ok {fmtNatList vs} {fmtNatList ls}"
@@ -134,6 +173,11 @@ def query (s : St) (be : Backend) (toks : List String) : Option String :=
   | ["get", i] => (parseNat i).map fun i => seqOnly (fmtOut ((get s i).bind fun v => .ok s!"ok {v}"))
   | ["iter_from", k] => (parseNat k).map fun k => seqOnly (fmtIter (iterFrom s k))
   | ["into_iter_from", k] => (parseNat k).map fun k => seqOnly (fmtIter (iterFrom s k))
+  | ["iter_proto", k, j] =>
+    match parseNat k, parseNat j with
+    | some k, some j =>
+      if k = 0 then some (fmtProto j (iterAll s)) else some (seqOnly (fmtProto j (iterFrom s k)))
+    | _, _ => none
   | ["index_of", q] => (parseNat q).map fun q => dictOnly (fmtIndexOf s q (indexOf s q))
   | ["contains", q] => (parseNat q).map fun q =>
       dictOnly (fmtOut ((contains s q).bind fun b => .ok s!"ok {fmtBool b}"))
@@ -151,6 +195,10 @@ def step (r : RSt) (toks : List String) : RSt × String :=
   let bad := (r, "bad-op")
   match toks with
   | ["case", _] => ({}, "case")
+  | ["estimate_size", u, n] =>
+    match parseNat u, parseNat n with
+    | some u, some n => (r, fmtOut ((estimateSize u n).bind fun v => .ok s!"ok {v}"))
+    | _, _ => bad
   | ["builder", n, u] =>
     match parseNat n, parseNat u with
     | some n, some u =>
